@@ -122,15 +122,16 @@ def registered_extra():
 def translation_audit(pid, extra, failures, results):
     """extra = {"module": ..., "theorems": [...]}.  One obligation for the translation itself (every listed source
     function is inside the supported subset) and one per gen_* theorem (generated function = hand-written model)."""
-    import fcntl, py2lean
+    import fcntl, importlib
+    gen = importlib.import_module(extra.get("generator", "py2lean"))
     os.makedirs(os.path.join(LEAN, ".audit"), exist_ok=True)
     obligations, discharged = 1 + len(extra["theorems"]), 0
     with open(os.path.join(LEAN, ".audit", "gen.lock"), "w") as lock:
         fcntl.flock(lock, fcntl.LOCK_EX)          # C06/C07/C08 run in parallel and share the generated file
         try:
-            changed, errors = py2lean.regenerate()
+            changed, errors = gen.regenerate()
         except Exception as e:
-            changed, errors = False, {"py2lean": "crashed: %r" % e}
+            changed, errors = False, {extra.get("generator", "py2lean"): "crashed: %r" % e}
         for fn, e in errors.items():
             failures.append("translation of %s: %s" % (fn, e))
         if not errors:
@@ -198,8 +199,10 @@ def proof_audit(pid, thorough=False):
     failures = []
     mod = "EoNVerif.Props.%s" % pid
     # companion modules Props/<pid>b.lean, <pid>c.lean, ... belong to the same property
+    extra = registered_extra().get(pid)
     mods = [mod] + sorted("EoNVerif.Props." + f[:-5] for f in os.listdir(os.path.join(LEAN, "EoNVerif", "Props"))
-                          if re.fullmatch(re.escape(pid) + r"[a-z]\.lean", f))
+                          if re.fullmatch(re.escape(pid) + r"[a-z]\.lean", f)
+                          and not (extra and extra["module"] == "EoNVerif.Props." + f[:-5]))
     p = subprocess.run(["lake", "build", *mods], cwd=LEAN, capture_output=True, text=True)
     built = p.returncode == 0
     if not built:
@@ -207,14 +210,18 @@ def proof_audit(pid, thorough=False):
     results = {}
     if built and reg:
         os.makedirs(os.path.join(LEAN, ".audit"), exist_ok=True)
-        af = os.path.join(LEAN, ".audit", "Audit_%s.lean" % pid)
-        with open(af, "w") as f:
-            for m_ in mods:
+        # one audit file per module (companion modules need not be importable together: Props/C01c uses Mathlib's
+        # analysis library, whose class `Dist` clashes with the project's `Dist`); a theorem is looked up in every
+        # module and must be found in at least one
+        out = ""
+        for m_ in mods:
+            af = os.path.join(LEAN, ".audit", "Audit_%s.lean" % m_.split(".")[-1])
+            with open(af, "w") as f:
                 f.write("import %s\n" % m_)
-            for t in reg:
-                f.write("#print axioms %s\n" % t)
-        p = subprocess.run(["lake", "env", "lean", af], cwd=LEAN, capture_output=True, text=True)
-        out = p.stdout + p.stderr
+                for t in reg:
+                    f.write("#print axioms %s\n" % t)
+            p = subprocess.run(["lake", "env", "lean", af], cwd=LEAN, capture_output=True, text=True)
+            out += p.stdout + p.stderr
         for t in reg:
             m = re.search(r"'%s' depends on axioms: \[([^\]]*)\]" % re.escape(t), out, re.S)
             if m:
@@ -242,7 +249,6 @@ def proof_audit(pid, thorough=False):
     obligations = len(reg) + 1
     discharged = sum(1 for t in reg if t in results and not (results[t] - ALLOWED_AXIOMS)) + (0 if grep_bad else 1)
     # tie by translation: regenerate the generated model from /repo's source, rebuild and audit the gen_* theorems
-    extra = registered_extra().get(pid)
     if extra:
         o, d = translation_audit(pid, extra, failures, results)
         obligations += o
